@@ -10,7 +10,7 @@
    other datatype.  The harness validates it against the real DisplayContext on every run. *)
 From Coq Require Import ZArith List Bool Arith Lia.
 Import ListNotations.
-From Verif Require Import Base.Out Base.StableSort Base.PyValue Model.Render Model.RenderCheck Proofs.RenderProofs.
+From Verif Require Import Base.Out Base.StableSort Base.PyValue Model.Render Model.RenderCheck Proofs.RenderProofs Proofs.RenderCheckProofs.
 
 Section C16.
 Variable quant : dec -> str -> dec.
@@ -130,8 +130,7 @@ Proof.
 Qed.
 Print Assumptions C16_decimal_aligned_scientific_refuted.
 
-(* read-back: integers, booleans and strings (dates and decimals: compared cell by cell with the
-   implementation and re-parsed by check_table on its output; no Coq round-trip theorem) *)
+(* read-back: integers, booleans and strings (dates and decimals: C16_readback_date / _decimal below) *)
 Theorem C16_readback_int : forall z, parse_int (show_int z) = Some z.
 Proof. exact parse_int_show. Qed.
 Print Assumptions C16_readback_int.
@@ -142,34 +141,63 @@ Theorem C16_readback_str : forall w (s : str), firstn (length s) (ljust w s) = s
 Proof. exact readback_str. Qed.
 Print Assumptions C16_readback_str.
 
-(* check_table on the model's own output.
-   FULL STATEMENT (NOT proved; tested on every run: for every generated table of exact datatypes the model's
-   text is byte-identical to the implementation's text, to which check_table is applied by vm_compute):
-     forall o prec desc rows, (1 <= length desc) -> wf_table desc rows -> exact_desc desc ->
-       (no cell text, header, nullvalue or list separator contains a line feed) ->
-       (every decimal is positional) ->
-       check_table o prec desc rows (unlines (text_lines quant numfmt o desc rows)) = true.
-   PROVED: each component check of check_table accepts the corresponding part of the model's output --
-   the widths read off the rule line are the model's widths, every header/data line splits into the model's
-   slots (C16_header_offsets, C16_fixed_offsets_no_truncation), the header and width checks hold, and the
-   cell check accepts the padded cell of every datatype whose text does not depend on the column.
-   MISSING: the composition (splitting the concatenated text into lines incl. the no-line-feed side condition,
-   the induction over rows in rows_check, the Decimal cell check and the agreement of the alignment anchors). *)
-Theorem C16_check_table_components_partial :
-  (forall o ws, ws <> [] -> Forall (fun w => (1 <= w)%nat) ws -> widths_of o (h_line o ws) = ws) /\
-  (forall w (h : str), header_ok w h (center w (firstn w h)) = true) /\
-  (forall numfmt o h st, width_ok o h (col_width numfmt o h st) = true) /\
-  (forall o prec t w v,
-     match t with TDecimal | TAmount | TPosition | TInventory => False | _ => True end -> cell_ok t v = true ->
-     fst (cell_check o prec t w v 0 (pad (align_of t) w (cell_str (render_cell no_numfmt o (t, SPlain 0) v)))) = 0%Z).
+(* check_table accepts the model's own output, as a whole: for every table of exact datatypes
+   (everything but Amount/Position/Inventory) whose strings, headers, nullvalue and list separator contain
+   no line feed ([nl_free]) and whose decimals are positional ([all_positional]; scientific ones are the
+   finding D11, code 11), the relational checker applied to the text the model renders returns 0:
+   the text splits into the expected number of lines of one width, the rule lines give back the widths,
+   every header/data line has its separators at the fixed offsets, every cell reads back, spacing lines
+   are blank and the decimal points of every Decimal column agree.  (Component lemmas: Proofs/RenderProofs.v
+   widths_of_h_line, header_ok_center, width_ok_col_width, cell_check_plain; Proofs/RenderCheckProofs.v.) *)
+Theorem C16_check_table_sound : forall quant numfmt o prec desc rows,
+  (1 <= length desc)%nat -> wf_table desc rows -> exact_desc desc -> all_positional rows -> nl_free o desc rows ->
+  check_table_code o prec desc rows (unlines (text_lines quant numfmt o desc rows)) = 0%Z.
+Proof. exact check_table_model. Qed.
+Print Assumptions C16_check_table_sound.
+
+Corollary C16_check_table_sound_render_text : forall quant numfmt o prec desc rows text,
+  (1 <= length desc)%nat -> wf_table desc rows -> exact_desc desc -> all_positional rows -> nl_free o desc rows ->
+  render_text quant numfmt o desc rows = Some text -> check_table o prec desc rows text = true.
 Proof.
-  split; [|split; [|split]].
-  - intros o ws H1 H2. apply widths_of_h_line; auto. destruct (o_unicode o); auto.
-  - exact header_ok_center.
-  - exact width_ok_col_width.
-  - exact cell_check_plain.
+  intros quant numfmt o prec desc rows text H1 H2 H3 H4 H5 Hr. unfold render_text in Hr.
+  destruct (well_typed desc rows && supported o desc); [|discriminate]. injection Hr as <-.
+  unfold check_table. rewrite (check_table_model quant numfmt o prec desc rows H1 H2 H3 H4 H5). reflexivity.
 Qed.
-Print Assumptions C16_check_table_components_partial.
+Print Assumptions C16_check_table_sound_render_text.
+
+(* check_csv accepts the model's own CSV against the model's own text (rendered unboxed, unspaced, list
+   separator ","): reading the CSV text back with the csv reader model gives header + one record per rendered
+   row with one field per column, and every field equals its text slot once padding is stripped *)
+Theorem C16_check_csv_sound : forall quant numfmt o desc rows,
+  (1 <= length desc)%nat -> wf_table desc rows -> exact_desc desc -> nl_free (csv_text_opts o) desc rows ->
+  check_csv_code o desc rows (unlines (text_lines quant numfmt (csv_text_opts o) desc rows))
+                 (flat_map csv_record (csv_records quant numfmt o desc rows)) = 0%Z.
+Proof. exact check_csv_model. Qed.
+Print Assumptions C16_check_csv_sound.
+
+(* csv.writer's quoting loses nothing: reading back any list of non-empty records (fields may contain
+   commas, quotes, CR, LF) returns exactly those records *)
+Theorem C16_csv_roundtrip : forall recs : list (list str), Forall (fun r => r <> []) recs ->
+  csv_read (flat_map csv_record recs) = recs.
+Proof. exact csv_read_records. Qed.
+Print Assumptions C16_csv_roundtrip.
+
+(* stripping a text slot gives the stripped cell text, whatever the cell contains *)
+Theorem C16_strip_slot : forall l r (f : str), strip (spaces l ++ f ++ spaces r) = strip f.
+Proof. exact strip_pad_any. Qed.
+Print Assumptions C16_strip_slot.
+
+(* read-back of date and decimal cells: parsing the stripped cell text gives back the value
+   (plain Decimal columns are not quantised: the value itself, with its exponent) *)
+Theorem C16_readback_date : forall y m d l r, (0 <= y)%Z -> (0 <= m)%Z -> (0 <= d)%Z ->
+  parse_date (strip (spaces l ++ date_str y m d ++ spaces r)) = Some (y, m, d).
+Proof. exact readback_date. Qed.
+Print Assumptions C16_readback_date.
+
+Theorem C16_readback_decimal : forall ds d, In d ds -> (0 <= dcoef d)%Z -> dec_positional d = true ->
+  parse_num (strip (dec_format (dec_state ds) d)) = Some (d, Z.to_nat (dec_intw d)).
+Proof. exact readback_decimal. Qed.
+Print Assumptions C16_readback_decimal.
 
 (* hypotheses are satisfiable *)
 Example C16_wf_example : wf_table [([110%Z], TInt); ([120%Z], TDecimal)] [[CInt (-5); CDec (mkdec false 125 (-1))]; [CNull; CNull]].
